@@ -400,6 +400,19 @@ def check_conflicts(seed, shard):
     extra = copy.deepcopy(left["channels"][0])
     extra["samples"] = [{"name": "only_in_right", "data": [1.5] * len(extra["samples"][0]["data"]), "modifiers": []}]
     r8["channels"].append(extra)
+    for mjoin in ("outer", "left outer", "right outer"):
+        # every operation leaves its inputs untouched - also when channels are deeply merged
+        Lm, Rm = pyhf.Workspace(copy.deepcopy(left)), pyhf.Workspace(copy.deepcopy(r8))
+        lm0, rm0 = copy.deepcopy(dict(Lm)), copy.deepcopy(dict(Rm))
+        try:
+            pyhf.Workspace.combine(Lm, Rm, join=mjoin, merge_channels=True)
+        except Exception:
+            continue
+        if dict(Lm) != lm0 or dict(Rm) != rm0:
+            shard.violate("C16/combine-mutates-input", f"combine(join={mjoin!r}, merge_channels=True) modified an input workspace", dict(case, conflict=f"merge/{mjoin}"), "inputs_untouched")
+        else:
+            shard.ok("inputs_untouched")
+            shard.covered("inputs_checked_after", f"merge_channels/{mjoin}")
     try:
         comb = pyhf.Workspace.combine(L, pyhf.Workspace(r8, validate=True), join="left outer", merge_channels=True)
         got = next(c for c in comb["channels"] if c["name"] == extra["name"])
